@@ -54,6 +54,15 @@ class SymBuilder:
                 return Str(t=self._sym(StrSort, name, idx))
             if k == "None":
                 return NONE
+            if k == "SMatrix":   # a 2-d float matrix: rows, columns and a cell function
+                from .array_model import smatrix, SMAT
+                n_ = self._sym(z3.IntSort(), name + ".rows", idx)
+                m_ = self._sym(z3.IntSort(), name + ".cols", idx)
+                self.wf.append(z3.And(n_ >= 0, m_ >= 0) if not (idx or self.ctx) else z3.BoolVal(True))
+                self._sym(z3.RealSort(), name + "[][]", tuple(idx) + (z3.Int("wfi"), z3.Int("wfj")))
+                f = self.symbols[name + "[][]"]
+                allidx = self.ctx + tuple(idx)
+                return smatrix(n_, m_, lambda i, j, f=f, allidx=allidx: f(*allidx, i, j), t=self._sym(SMAT, name, idx))
             if k == "NDArray":   # a 1-d float array: length + element function
                 from .values import NDArr
                 ln = self._sym(z3.IntSort(), name + ".len", idx)
